@@ -87,6 +87,10 @@ def chains():
     # name of its own on the other side
     out.append([["rename", "a", "t"], ["rename", "h", "a"], ["rename", "t", "h"]])
     out.append([["rename", "a", "t"], ["rename", "d/b", "a"], ["rename", "t", "d/b"]])
+    # replace by rename: a name is freed (deleted / moved away) and another synced file is renamed onto it
+    out.append([["delete", "h"], ["rename", "a", "h"]])
+    out.append([["delete", "d/b"], ["rename", "a", "d/b"]])
+    out.append([["rename", "h", "k"], ["rename", "a", "h"]])
     return out
 
 
